@@ -216,3 +216,118 @@ func c22Extra(r *Run) error {
 	r.writersUnderContract("C22/jwks-keys-writers", r.globalField(oauth, "jwksCache", "keys"))
 	return nil
 }
+
+// fieldUseCensus: every use of the field that can run a statement on it, replace it or let it escape lies in one of the
+// allowed functions. Comparisons with nil and the calls listed in benign are not counted.
+func (r *Run) fieldUseCensus(name string, field *types.Var, benign map[string]bool, what string, allowed ...string) {
+	if field == nil {
+		r.table(name, false, what, "field not found")
+		return
+	}
+	var bad []string
+	uses := 0
+	var paths []string
+	for p := range r.Prog.Pkgs {
+		if strings.HasPrefix(p, "github.com/tucats/ego") {
+			paths = append(paths, p)
+		}
+	}
+	sort.Strings(paths)
+	for _, p := range paths {
+		pk := r.Prog.Pkgs[p]
+		if pk.TypesInfo == nil {
+			continue
+		}
+		for _, f := range pk.Syntax {
+			if strings.HasSuffix(r.Prog.Fset.Position(f.Pos()).Filename, "_test.go") {
+				continue
+			}
+			for _, d := range f.Decls {
+				fd, ok := d.(*ast.FuncDecl)
+				if !ok || fd.Body == nil {
+					continue
+				}
+				obj, _ := pk.TypesInfo.Defs[fd.Name].(*types.Func)
+				if obj == nil {
+					continue
+				}
+				var stack []ast.Node
+				ast.Inspect(fd.Body, func(n ast.Node) bool {
+					if n == nil {
+						stack = stack[:len(stack)-1]
+						return true
+					}
+					stack = append(stack, n)
+					se, ok := n.(*ast.SelectorExpr)
+					if !ok {
+						return true
+					}
+					sel := pk.TypesInfo.Selections[se]
+					if sel == nil || sel.Obj() != field {
+						return true
+					}
+					uses++
+					var parent, grand ast.Node
+					if len(stack) >= 2 {
+						parent = stack[len(stack)-2]
+					}
+					if len(stack) >= 3 {
+						grand = stack[len(stack)-3]
+					}
+					for {
+						if pe, ok := parent.(*ast.ParenExpr); ok && len(stack) >= 3 {
+							_ = pe
+							parent, grand = grand, nil
+							continue
+						}
+						break
+					}
+					switch pn := parent.(type) {
+					case *ast.BinaryExpr:
+						other := pn.X
+						if other == ast.Expr(se) {
+							other = pn.Y
+						}
+						if id, ok := ast.Unparen(other).(*ast.Ident); ok && id.Name == "nil" && (pn.Op.String() == "==" || pn.Op.String() == "!=") {
+							return true
+						}
+					case *ast.SelectorExpr:
+						if ce, ok := grand.(*ast.CallExpr); ok && ce.Fun == ast.Expr(pn) && benign[pn.Sel.Name] {
+							return true
+						}
+					}
+					for _, a := range allowed {
+						if obj.FullName() == a {
+							return true
+						}
+					}
+					bad = append(bad, shortFuncName(obj.FullName())+" at "+fmt.Sprint(r.Prog.Fset.Position(se.Pos())))
+					return true
+				})
+			}
+		}
+	}
+	detail := fmt.Sprintf("%d uses of %s; outside the allowed functions: %v", uses, field.Name(), bad)
+	r.table(name, uses > 0 && len(bad) == 0, what+" (allowed: "+strings.Join(shortNames(allowed), ", ")+")", detail)
+}
+
+// structField returns the field object of a named struct type.
+func (r *Run) structField(pkgPath, typeName, field string) *types.Var {
+	for _, f := range r.structFields(pkgPath, typeName) {
+		if f.Name() == field {
+			return f
+		}
+	}
+	return nil
+}
+
+// C17: statements of a request run on its transaction. Only the Database wrappers touch the bare connection
+// handle, and (by their anchored assertions) only when no transaction is open.
+func c17Extra(r *Run) error {
+	db := modInternal + "server/tables/database"
+	benign := map[string]bool{"Close": true, "Stats": true, "Ping": true, "PingContext": true, "SetMaxOpenConns": true, "SetMaxIdleConns": true, "SetConnMaxLifetime": true, "SetConnMaxIdleTime": true, "Driver": true}
+	r.fieldUseCensus("C17/bare-handle-census", r.structField(db, "Database", "Handle"), benign,
+		"the connection handle Database.Handle is used to run statements, is replaced or escapes only in the Database wrappers",
+		db+".Open", "(*"+db+".Database).Exec", "(*"+db+".Database).Query", "(*"+db+".Database).Begin")
+	return nil
+}
